@@ -3,6 +3,7 @@ package face
 import (
 	"bufio"
 	"errors"
+	"fmt"
 	"io"
 	"net"
 	"sync"
@@ -38,6 +39,10 @@ func (h *headerRecorder) ReadByte() (byte, error) {
 	return b, err
 }
 
+// maxStreamBlockSize bounds the TLV-LENGTH accepted from the stream (the
+// maximum NDN packet size)
+const maxStreamBlockSize = 8800
+
 func (f *StreamFace) Run() {
 	br := bufio.NewReader(f.conn)
 	r := &headerRecorder{r: br, hdr: make([]byte, 0, 18)}
@@ -62,6 +67,14 @@ func (f *StreamFace) Run() {
 			if err != nil {
 				break
 			}
+		}
+		if l > maxStreamBlockSize {
+			// No packet is that long: the stream is out of step (or hostile), and
+			// the length must not size a buffer
+			if f.running.Load() {
+				f.onError(fmt.Errorf("stream face: TLV length %d exceeds the maximum packet size", uint64(l)))
+			}
+			break
 		}
 		buf := make([]byte, len(r.hdr)+int(l))
 		copy(buf, r.hdr)
